@@ -8,9 +8,11 @@ import (
 
 	"github.com/codelaboratoryltd/bng/pkg/dhcp"
 	"github.com/codelaboratoryltd/bng/pkg/ebpf"
+	bngradius "github.com/codelaboratoryltd/bng/pkg/radius"
 	"github.com/codelaboratoryltd/bng/pkg/simrt"
 	"github.com/insomniacslk/dhcp/dhcpv4"
 	"go.uber.org/zap"
+	"layeh.com/radius"
 
 	"verif/harness/sim"
 )
@@ -193,6 +195,7 @@ func c02Gen(r *sim.Rand, tier string) *sim.Case {
 	cs.Knobs["clients"] = int64(r.Range(2, 5))
 	cs.Knobs["lease_s"] = int64(sim.Pick(r, 30, 90, 600, 3600))
 	cs.Knobs["relaymask"] = int64(r.N(32))
+	cs.Knobs["radius"] = int64(r.Weighted(3, 1)) // 1: subscriber authentication over RADIUS is enabled
 	cs.Knobs["skipmax"] = int64(sim.Pick(r, 1, 1, 4, 16))
 	cs.Knobs["maporder"] = int64(r.N(4))
 	n := r.Range(4, 14)
@@ -200,8 +203,26 @@ func c02Gen(r *sim.Rand, tier string) *sim.Case {
 		n = r.Range(4, 30)
 	}
 	nc := int(cs.Knobs["clients"])
+	if r.P(10) {
+		// motif: the pool is exhausted, one holder declines its address while a client without
+		// any address discovers - both handled at the same time
+		u := int(cs.Knobs["usable"])
+		if u > 4 {
+			u = 4
+			cs.Knobs["usable"] = 4
+		}
+		nc = u + 1
+		cs.Knobs["clients"] = int64(nc)
+		for i := 0; i < u; i++ {
+			cs.Ops = append(cs.Ops, sim.Op{K: "discover", A: []int64{int64(i)}}, sim.Op{K: "request", A: []int64{int64(i), 0, 0, 0, 0}})
+		}
+		cs.Ops = append(cs.Ops, sim.Op{K: "burst", A: []int64{2}}, sim.Op{K: "decline", A: []int64{int64(r.N(u))}}, sim.Op{K: "discover", A: []int64{int64(u)}})
+	}
 	for i := 0; i < n; i++ {
 		c := int64(r.N(nc))
+		if cs.Knobs["radius"] == 1 && r.P(8) {
+			cs.Ops = append(cs.Ops, sim.Op{K: "radout", A: []int64{int64(r.Range(1, 2))}})
+		}
 		switch r.Weighted(10, 14, 4, 3, 1, 8, 3) {
 		case 0:
 			cs.Ops = append(cs.Ops, sim.Op{K: "discover", A: []int64{c}})
@@ -278,11 +299,37 @@ func c02Run(c *sim.Ctx) {
 	loader, _ := ebpf.NewLoader("sim0", zap.NewNop())
 	pm := dhcp.NewPoolManager(loader, zap.NewNop())
 	pm.AddPool(pool)
-	srv, err := dhcp.NewServer(dhcp.ServerConfig{Interface: "sim0", ServerIP: net.IPv4(10, 7, 0, 1)}, loader, pm, zap.NewNop())
+	withRadius := cs.Knob("radius", 0) == 1
+	srv, err := dhcp.NewServer(dhcp.ServerConfig{Interface: "sim0", ServerIP: net.IPv4(10, 7, 0, 1), RADIUSAuthEnabled: withRadius}, loader, pm, zap.NewNop())
 	if err != nil {
 		panic(err)
 	}
 	w.srv = srv
+	radOut := 0 // authentication requests still to be lost (RADIUS outage: the client times out)
+	if withRadius {
+		// subscriber authentication through the real radius.Client against a simulated server
+		rcl, err := bngradius.NewClient(bngradius.ClientConfig{Servers: []bngradius.ServerConfig{{Host: "radius.sim", Port: 1812, Secret: "s3cret"}},
+			NASID: "bng", Timeout: 3 * time.Second, Retries: 3}, zap.NewNop())
+		if err != nil {
+			panic(err)
+		}
+		srv.SetRADIUSClient(rcl)
+		rn := &sim.RadiusNet{S: c.S, Secret: []byte("s3cret"), Latency: 5 * time.Millisecond}
+		rn.Decide = func(p *radius.Packet, addr string) int {
+			if p.Code == radius.CodeAccessRequest && radOut > 0 {
+				radOut--
+				return sim.RadDrop
+			}
+			return sim.RadOK
+		}
+		rn.Serve = func(p *radius.Packet, addr string, raw []byte) *radius.Packet {
+			if p.Code == radius.CodeAccountingRequest {
+				return p.Response(radius.CodeAccountingResponse)
+			}
+			return p.Response(radius.CodeAccessAccept)
+		}
+		c.S.Radius = rn.Exchange
+	}
 	w.conn = &fakeConn{onWrite: w.onReply}
 	for i := 0; i < nc; i++ {
 		cl := &v4client{idx: i, mac: net.HardwareAddr{0x02, 0xaa, 0, 0, 0, byte(i + 1)}}
@@ -497,6 +544,12 @@ func c02Run(c *sim.Ctx) {
 		c.OpIdx = i
 		op := ops[i]
 		switch op.K {
+		case "radout":
+			// RADIUS outage: the next authentication exchange (all its retransmissions) goes unanswered
+			if withRadius {
+				radOut += 3 * int(op.Arg(0))
+				c.S.Fault("radius.outage")
+			}
 		case "sleep":
 			d := sleepFor(op.Arg(0))
 			if op.Arg(0) == 7 {
@@ -542,6 +595,7 @@ func c02Run(c *sim.Ctx) {
 	if c.Failed() {
 		return
 	}
+	radOut = 0 // faults stop: the RADIUS server answers again
 	// ---- availability after release/expiry (bounded liveness) -------------------
 	c.OpIdx = len(ops)
 	c.S.Sleep(lease + 125*time.Second) // every binding expired, two cleanup ticks
